@@ -364,11 +364,37 @@ func c12Run(cc *c12Case, sampleOffsets func(n int, boundaries []int) []int) ([]s
 			break
 		}
 	}
+	// --- (f) the knowledge base is stored a second time after a rule was removed through the library: the
+	// second stream holds the remaining rules only (this changes the library, so it comes last)
+	if (cc.What == "" || cc.What == "store-after-removal") && len(c.Rules) >= 2 {
+		gone := c.Rules[len(c.Rules)-1].Name
+		prep.Lib.RemoveRuleEntry(gone, obs.KBName, obs.KBVersion)
+		var b2 bytes.Buffer
+		if err := storeKB(prep.Lib, &b2); err != nil {
+			failing = fail("store-after-removal", 0, 0, fmt.Sprintf("storing after the removal of %s failed: %v", gone, err))
+		} else {
+			l4 := ast.NewKnowledgeLibrary()
+			kb4, err4, _ := loadKB(b2.Bytes(), l4, true)
+			if err4 != nil {
+				failing = fail("store-after-removal", 0, 0, fmt.Sprintf("the stream stored after the removal of %s does not load: %v", gone, err4))
+			} else {
+				want := kbMeta{Name: origMeta.Name, Version: origMeta.Version, Rules: map[string][2]string{}}
+				for k, m := range origMeta.Rules {
+					if k != gone {
+						want.Rules[k] = m
+					}
+				}
+				if d := metaDiff(want, metaOf(kb4)); len(d) > 0 {
+					failing = fail("store-after-removal", 0, 0, fmt.Sprintf("stored, then rule %s removed through the library, then stored again: the second stream does not hold exactly the remaining rules: %s", gone, strings.Join(d, "; ")))
+				}
+			}
+		}
+	}
 	return v, st, failing, nil
 }
 
 func TestC12(t *testing.T) {
-	col := stats.New("C12", "generated rule sets (pairwise distinct saliences, write->read dependencies, descriptions, int32-limit saliences) with 2-3 fact states. (a) store -> load -> store -> load (also with the stream delivered in pieces: one byte per Read, half reads, a 16-byte bufio buffer, data together with io.EOF): name, version, rule names, descriptions, saliences equal; instances of the loaded and twice-loaded knowledge base validate against fresh single-rule truth and the reference replay, and fire the same sequence with the same final facts as the original; (b) truncation: the stream is cut at every field boundary (recorded from the loader's own Read calls on the complete stream) plus a drawn sample of other offsets - every offset in the thorough tier - and each prefix must make Load return an error or yield a knowledge base that passes the same comparison; (c) the store writer fails at every write-call index (all indices); (d) overwrite=false on an existing entry: error, entry pointer-identical and behaviourally unchanged; (e) clock family: small rule sets that stamp a fact with Now() are executed 2-3 times on one instance of the stored / loaded / twice-loaded knowledge base, with and without Forget(\"Now()\"): every call's stamp must not lie before that call started. Non-trivial: the rule set's run on the first fact state needs an invalidation (>= 2 cycles and a truth flip). Distinct by rule text + facts.",
+	col := stats.New("C12", "generated rule sets (pairwise distinct saliences, write->read dependencies, descriptions, int32-limit saliences) with 2-3 fact states. (a) store -> load -> store -> load (also with the stream delivered in pieces: one byte per Read, half reads, a 16-byte bufio buffer, data together with io.EOF): name, version, rule names, descriptions, saliences equal; instances of the loaded and twice-loaded knowledge base validate against fresh single-rule truth and the reference replay, and fire the same sequence with the same final facts as the original; (b) truncation: the stream is cut at every field boundary (recorded from the loader's own Read calls on the complete stream) plus a drawn sample of other offsets - every offset in the thorough tier - and each prefix must make Load return an error or yield a knowledge base that passes the same comparison; (c) the store writer fails at every write-call index (all indices); (f) a second store after a rule was removed through the library holds exactly the remaining rules; (d) overwrite=false on an existing entry: error, entry pointer-identical and behaviourally unchanged; (e) clock family: small rule sets that stamp a fact with Now() are executed 2-3 times on one instance of the stored / loaded / twice-loaded knowledge base, with and without Forget(\"Now()\"): every call's stamp must not lie before that call started. Non-trivial: the rule set's run on the first fact state needs an invalidation (>= 2 cycles and a truth flip). Distinct by rule text + facts.",
 		"crash points are enumerated per generated rule set; the rule sets themselves are sampled")
 	defer col.Flush()
 	rc := fullRuleCfg()
